@@ -87,6 +87,8 @@ class Gen:
         r = self.r
         name = lib_name or 'fn%d' % ix
         params = r.sample(['aa', 'bb', 'xx', 'pp'], r.randint(0, 3))
+        if len(params) >= 2 and r.random() < 0.2:
+            params[r.randrange(1, len(params))] = params[0]        # a repeated parameter name: the later position is the binding
         last = bool(params) and r.random() < 0.35
         body = []
         local_names = list(params)
@@ -117,6 +119,35 @@ class Gen:
         body.append(('return', self.expr(local_names + ['tot'], 2) if r.random() < 0.85 else None))
         self.funcs.append((name, params, last))
         return ('func', name, params, last, body)
+
+    def rebinding_loop(self):
+        """A definition that is executed several times (loop body) while its name is re-bound in between - by an assignment, by
+        systemGlobalSet or by a second definition: every executed definition binds the name again."""
+        r = self.r
+        name = r.choice([f[0] for f in self.funcs] + ['fnR', 'fnR', r.choice(SHADOWABLE[:4])])
+        if name in ('xx', 'yy', 'tot', 'fn0', 'fn1'):
+            self.collision = True
+
+        def definition(tag_text, params):
+            parts = [sq(tag_text + ':' + name + ':')] + [('var', p) for p in params] + [('var', 'kk')]
+            return ('func', name, params, False, [('return', call('stringNew', call('arrayNew', *parts)))])
+
+        def use():
+            return log_stmt(call('stringNew', call('arrayNew', call(name, num(1), num(2), num(3)), ('bin', '!=', ('var', name), ('var', 'null')))))
+        how = r.choice(['assign', 'globalset', 'redefine', 'redefine-in-else', 'none'])
+        body = [definition('def', r.choice([['aa'], ['aa', 'bb'], []])), use()]
+        if how == 'assign':
+            body.append(('assign', name, r.choice([num(5), sq('text'), ('var', 'null')])))
+        elif how == 'globalset':
+            body.append(('expr', call('systemGlobalSet', sq(name), r.choice([num(5), ('var', 'null')]))))
+        elif how == 'redefine':
+            body.append(definition('alt', r.choice([['pp'], ['aa', 'aa'], []])))
+        elif how == 'redefine-in-else':
+            body = [('if', [(('bin', '==', ('bin', '%', ('var', 'kk'), num(2)), num(1)), [definition('odd', ['aa'])])], [definition('even', ['bb', 'aa'])]), use()]
+        if how != 'none':
+            body.append(use())
+        self.funcs.append((name, ['aa'], False))
+        return ('for', 'kk', None, call('arrayNew', *[num(x) for x in range(1, r.randint(2, 4) + 1)]), body)
 
     def program(self, size, script_lib_name=None):
         r = self.r
@@ -150,6 +181,8 @@ class Gen:
                 prog.append(log_stmt(call('stringNew', call('arrayIndexOf', arr, ('var', f[0])))))
             else:
                 prog.append(('assign', r.choice(gnames), self.expr(gnames, 2)))
+        if r.random() < 0.35:
+            prog.insert(r.randint(1 + nfun, len(prog)), self.rebinding_loop())
         if script_lib_name:
             prog.append(log_stmt(call('stringNew', call(script_lib_name, num(4), num(9)))))
         prog.append(log_stmt(call('stringNew', call('arrayNew', ('var', 'xx'), ('var', 'yy'), ('var', 'tot'), ('var', 'aa'), ('var', 'bb'), ('var', 'rr'),
@@ -180,6 +213,13 @@ def assigned_at_top(prog):
             out.add(s[1])
         elif s[0] == 'func':
             out.add(s[1])
+        elif s[0] == 'for':
+            out.add(s[1])
+            out |= assigned_at_top(s[4])
+        elif s[0] == 'if':
+            for _, b in s[1]:
+                out |= assigned_at_top(b)
+            out |= assigned_at_top(s[2] or [])
     return out
 
 
@@ -197,15 +237,24 @@ def global_set_names(prog):
             walk(e[3])
         elif e[0] in ('unary', 'group'):
             walk(e[-1])
-    for s in prog:
-        if s[0] == 'func':
-            for t in s[4]:
-                if t[0] in ('assign',):
-                    walk(t[2])
-                elif t[0] == 'expr':
-                    walk(t[1])
-                elif t[0] == 'return' and t[1] is not None:
-                    walk(t[1])
+    def stmts(lst):
+        for t in lst:
+            if t[0] == 'assign':
+                walk(t[2])
+            elif t[0] == 'expr':
+                walk(t[1])
+            elif t[0] == 'return' and t[1] is not None:
+                walk(t[1])
+            elif t[0] in ('func', 'for'):
+                if t[0] == 'for':
+                    walk(t[3])
+                stmts(t[4])
+            elif t[0] == 'if':
+                for c, b in t[1]:
+                    walk(c)
+                    stmts(b)
+                stmts(t[2] or [])
+    stmts(prog)
     return out
 
 
@@ -252,7 +301,7 @@ def compare(prog, src, host):
         if k not in top and k not in gset and ig.get(k, '<missing>') is not v:
             raise Violation('caller-supplied global %r was changed from %r to %r although the script never assigns it' % (k, v, ig.get(k, '<missing>')), d,
                             'caller-global-overwritten')
-    script_funcs = {s[1] for s in prog if s[0] == 'func'}
+    script_funcs = {s[1] for s in prog if s[0] == 'func'} - {t[1] for s in prog if s[0] == 'for' for t in s[4] if t[0] == 'func'}
     for name in LIBRARY_NAMES:
         if name in ig_before or name in top or name in gset:
             continue
@@ -262,7 +311,8 @@ def compare(prog, src, host):
         for name in script_funcs:
             if name in LIBRARY_NAMES and ig.get(name) is impl.bs.SCRIPT_FUNCTIONS.get(name):
                 raise Violation('script-defined function %s did not replace the library function' % name, d, 'script-function-not-bound')
-        user_i = {k: v for k, v in ig.items() if not (k in impl.bs.SCRIPT_FUNCTIONS and v is impl.bs.SCRIPT_FUNCTIONS[k])}
+        user_i = {k: v for k, v in ig.items() if not (k in impl.bs.SCRIPT_FUNCTIONS and v is impl.bs.SCRIPT_FUNCTIONS[k]) and
+                  not k.startswith('__bareScript')}        # (the for lowering keeps its loop state in reserved names)
         user_r = dict(rg)
         if sorted(user_i) != sorted(user_r):
             leaked = sorted(set(user_i) - set(user_r))
@@ -368,6 +418,8 @@ def run_shard(ctx, spec):
         except Violation as v:
             v.detail.update(seed=seed, size=size)
             raise
+        except RecursionError:
+            res = (None, 'cyclic structure (an array pushed into itself through an alias)')
         if res[0] is None:
             ctx.discard('indeterminate:' + res[1][:30])
             return
